@@ -131,6 +131,25 @@ def poly_fails(case):
     want = np.array([float(exact_partial(terms, xs, tuple(int(a) for a in alpha)) / math.prod(math.factorial(int(a)) for a in alpha)) for alpha in mi])
     if not close(np.ravel(T), want, 1e-8):
         return 'poly-tensor: extract_tensor (d=%d) differs from the exact partial derivatives / multi-index factorial' % d
+    # the same seed point given as a matrix (row-major order of the variables) in every memory layout
+    for (r, c) in [(a, N // a) for a in range(1, N + 1) if N % a == 0]:
+        Xc = np.array(xs, dtype=float).reshape(r, c)
+        for lay, X in (('C', Xc), ('F', np.asfortranarray(Xc)), ('T', np.ascontiguousarray(Xc.T).T),
+                       ('strided', np.repeat(Xc, 2, axis=1)[:, ::2])):
+            try:
+                Hm = UTPM.extract_hessian(N, f(UTPM.init_hessian(X)))
+                xm = UTPM.init_jacobian(X)
+                Jm = UTPM.extract_jacobian(f(algopy.reshape(xm, (N,))))
+                xv = UTPM.init_jac_vec(X, v.reshape(r, c))
+                Jvm = UTPM.extract_jac_vec(f(algopy.reshape(xv, (N,))))
+            except Exception as ex:
+                return 'poly-layout-exception: seed of shape %s, layout %s: %s' % ((r, c), lay, type(ex).__name__ + ':' + str(ex)[:80])
+            if not close(Hm, H, 1e-10):
+                return 'poly-hessian-layout: init_hessian with a %s-layout seed of shape %s: Hessian differs from the exact one at the row-major point' % (lay, (r, c))
+            if not close(np.ravel(Jm), g, 1e-10):
+                return 'poly-jacobian-layout: init_jacobian with a %s-layout seed of shape %s: Jacobian differs' % (lay, (r, c))
+            if not close(np.ravel(Jvm), np.array([g @ v]), 1e-10):
+                return 'poly-jac_vec-layout: init_jac_vec with a %s-layout seed of shape %s: J v differs' % (lay, (r, c))
     return None
 
 
